@@ -189,6 +189,20 @@ def run(ctx):
         roundtrip(spec, "multi%d:%s/%s" % (n, "+".join(algs), e))
         bump("multi-%d" % n)
 
+    # ------------------------------------------------------------------ merge order protected < unprotected < recipient header
+    for ser in ("flat", "general"):
+        for enc in ("A128GCM", "A128CBC-HS256"):
+            k256 = K.for_alg("A256KW", enc)
+            for prot, unprot, hdr in (
+                    ({"enc": enc, "cty": "p"}, {"alg": "A128KW", "cty": "u"}, {"alg": "A256KW", "cty": "r"}),
+                    ({"enc": enc, "alg": "A128KW"}, {"alg": "A256KW"}, {"cty": "r"}),
+                    ({"enc": enc, "alg": "A128KW"}, None, {"alg": "A256KW"}),
+                    ({"enc": enc, "alg": "A192KW"}, {"alg": "A128KW"}, {"alg": "A256KW"})):
+                spec = {"ser": ser, "protected": prot, "unprotected": unprot, "recips": [(hdr, k256)], "sender": None,
+                        "aad": None, "plaintext": b"merge order", "algs": ["A256KW"], "enc": enc, "crv": "P-256"}
+                roundtrip(spec, "merge-order/%s/%s" % (ser, enc))
+                bump("merge-order")
+
     # ------------------------------------------------------------------ kid + KeySet (implementation level)
     def keyset_rt(ser, where, algs, enc):
         ks_keys, recips = [], []
@@ -235,7 +249,7 @@ def run(ctx):
 
     for ser in ("flat", "general"):
         for where in ("protected", "unprotected", "recipient"):
-            for a in (["A128KW", "RSA-OAEP", "ECDH-ES+A128KW", "A256GCMKW", "PBES2-HS256+A128KW"] if ctx.quick else multi_algs):
+            for a in (["A128KW", "RSA-OAEP", "ECDH-ES+A128KW", "A256GCMKW", "PBES2-HS256+A128KW"] if ctx.quick else [x for x in multi_algs if x not in J.PU_ALGS]):
                 keyset_rt(ser, where, [a], "A128CBC-HS256")
     for i in range(ctx.scale(4, 40)):
         keyset_rt("general", "recipient", [rng.choice(["A128KW", "A256KW", "ECDH-ES+A256KW", "A128GCMKW"]) for _ in range(2 + i % 3)], "A256GCM")
@@ -282,8 +296,7 @@ def run(ctx):
     if cases:
         ctx.sample({"coq_case": cases[0][:300]})
 
-    ev = lib.CoqEval(J.IMPORTS, "jwecase", "jwe_check", "jwe_show", shard=40, max_chars=200000, preamble=J.preamble())
-    res = ev.run(cases)
+    res = J.coq_eval(cases)
     ctx.coverage["traces_validated_against_impl"] = res["evaluated"]
     ctx.coverage["disagreements_checked"] = len(res["failing"])
     direct = len(ctx.violations)
